@@ -46,6 +46,18 @@ static Plan gen_c06(uint64_t seed, int64_t index, bool thorough)
     }
     std::string key = rng.pick(pk);
     const ref::Model* m = model_for(grammar_of(key));
+    if (rng.chance(1, 500))
+    {
+        // a message at a seven-digit line AND a seven-digit column (2 MB of text): the longest position a formatting
+        // routine of the library has to print
+        mode = "message_at_far_position";
+        sh.budget = 6; sh.buffers = { BUF_STRING, BUF_VIEW }; sh.streams = { STR_OSS, STR_SIM }; sh.p_verbose = 0; sh.p_skip_ws_off = 0; sh.p_skip_nl_off = 0;
+        op = make_sentence_op(rng, key, sh);
+        std::string far = std::string(size_t(1000000 + rng.below(900)), '\n') + std::string(size_t(1000000 + rng.below(900)), ' ');
+        if (!op.toks.empty()) op.toks.back().ws = far; else op.tail = far;
+        op.tail += rng.chance(1, 2) ? std::string(" \x01") : std::string(" ") + (op.toks.empty() ? std::string("?") : op.toks.back().lex);
+        return single_op_plan("C06", seed, index, mode, op);
+    }
     uint64_t k = rng.below(100);
     if (k < 12)
     {
@@ -396,10 +408,20 @@ static Plan gen_c10(uint64_t seed, int64_t index, bool thorough)
         op.faults.clear();
         uint64_t how = rng.below(3);
         size_t at = size_t(rng.below(op.toks.size()));
-        if (how == 0) { if (op.skip_nl) op.toks[at].ws.assign(size_t(65530 + rng.below(600)), '\n'); else op.toks[at].ws.assign(size_t(65530 + rng.below(600)), ' '); }
+        if (rng.chance(1, 4) && op.skip_nl)
+        {
+            // seven-digit line AND seven-digit column (a 2 MB text): the longest "[line:column]" prefixes a message can carry
+            how = 3;
+            op.buffer = BUF_STRING; op.stream = rng.chance(1, 2) ? STR_OSS : STR_SIM;
+            at = op.toks.size() - 1;
+            op.toks[at].ws = std::string(size_t(1000000 + rng.below(900)), '\n') + std::string(size_t(1000000 + rng.below(900)), ' ');
+        }
+        if (how == 3) { }
+        else if (how == 0) { if (op.skip_nl) op.toks[at].ws.assign(size_t(65530 + rng.below(600)), '\n'); else op.toks[at].ws.assign(size_t(65530 + rng.below(600)), ' '); }
         else if (how == 1) op.toks[at].ws.assign(size_t(65530 + rng.below(600)), ' ');
         else if (!stretch_one_lexeme(op, rng, *m, size_t(65530 + rng.below(600)))) op.toks[at].ws.assign(70000, ' ');
-        if (rng.chance(1, 2)) add_token_faults(op, rng, 1, *m);      // and an error message out there
+        if (how == 3) { op.faults.clear(); op.tail = rng.chance(1, 2) ? std::string(" \x01") : std::string(" ") + (op.toks.empty() ? std::string("?") : op.toks.back().lex); }      // an error out there, for certain
+        else if (rng.chance(1, 2)) add_token_faults(op, rng, 1, *m);      // and an error message out there
     }
     Plan p10 = single_op_plan("C10", seed, index, mode, op);
     if (mode != "far_positions" && rng.chance(1, 10))
@@ -492,7 +514,24 @@ static std::vector<Violation> case_c10(const Plan& p, CaseCtx& cx)
     for (size_t i = 0; i < lines.size() && i < r.messages.size(); ++i)
     {
         int l1, c1, l2, c2;
-        if (!parse_prefix(lines[i], l1, c1) || !parse_prefix(r.messages[i], l2, c2)) break;
+        if (!parse_prefix(r.messages[i], l2, c2)) break;
+        if (!parse_prefix(lines[i], l1, c1) || lines[i].substr(0, lines[i].find(']') + 1) != r.messages[i].substr(0, r.messages[i].find(']') + 1))
+        {
+            // the prefix is not even of the form [line:column], or not this one: if what follows " PARSE: " is the expected
+            // message, the message is the right one and only its position prefix is wrong (truncated, garbled, another base)
+            if (i == 0)
+            {
+                size_t m1 = written.find(" PARSE: "), m2 = r.messages[0].find(" PARSE: ");
+                if (m1 != std::string::npos && m2 != std::string::npos && written.compare(m1, r.messages[0].size() - m2, r.messages[0], m2, std::string::npos) == 0 &&
+                    written.substr(0, m1) != r.messages[0].substr(0, m2))
+                {
+                    vs.push_back(make_violation("C10", "message_position",
+                        "message #0 is prefixed '" + printable(written.substr(0, m1), 60) + "', the offending term is at " + r.messages[0].substr(0, m2) + ": '" + printable(written.substr(0, std::min<size_t>(written.size(), 120))) + "'; " + brief, p));
+                    return vs;
+                }
+            }
+            if (!parse_prefix(lines[i], l1, c1)) break;
+        }
         size_t a = lines[i].find(']'), b = r.messages[i].find(']');
         if (lines[i].substr(a) != r.messages[i].substr(b)) break;    // a different message: not a position question
         if (l1 != l2 || c1 != c2)
